@@ -68,5 +68,8 @@ FIXED.append('fixed: property=C09 faa31f5 @2020 + 365 days stayed @2020; @2019-0
 FIXED.append('fixed: property=C09 9c65909 @2020-01-01T00:00:00 - 1 millisecond gave 23:59:59 of the previous day')
 FIXED.append("fixed: property=C09 856b35d (@T23 + 2 hours) = @T01 was false: the wrapped Time carried the next day's date")
 
+k("C19", "edit-parse-format-parse|seed=*|parse-format-parse-changes-information|empty-authority", "an absolute reference with an empty authority (http:///Patient/1) is accepted with service base 'http:' (all trailing slashes trimmed); its formatted form http:/Patient/1 parses as a non-REST URI, so parse-format-parse changes the information. Recorded rather than repaired: rejecting it needs the service-base pattern, which is stricter than the resource-URL pattern ('_' in path segments)", {"input": "http:///Patient/1", "formatted": "http:/Patient/1"})
+FIXED.append("fixed: property=C19 82422fb LiteralInfoFromURI(\"\") and canonical.IdentityFromReference(\"\" / \"#x\" / nil) panicked with index out of range (also C01)")
+
 if __name__ == '__main__':
     write()
